@@ -61,7 +61,7 @@ ROOT_CASES = [
     ("slice", "Vec<i32>", "vec![1, 2]", "(vec (int 1) (int 2))", "[1, 2]", "[1, 3]", None),
     ("slice_len", "Vec<i32>", "vec![1, 2]", "(vec (int 1) (int 2))", "[1, ..]", "[1]", None),
     ("set", "Vec<i32>", "vec![1, 2]", "(vec (int 1) (int 2))", "#(2, 1)", "#(2, 3)", None),
-    ("wildcard", "i32", "5", "(int 5)", "_", None, "C08-root-wildcard-zero-eval"),
+    ("wildcard", "i32", "5", "(int 5)", "_", None, None),
     ("wstruct1", "P2", "P2 { a: 1, b: 2 }", "(struct %s (%s (int 1)) (%s (int 2)))" % (hx("P2"), hx("a"), hx("b")), "_ { a: 1, .. }", "_ { a: 2, .. }", "C08-wildcard-struct-multi-eval"),
     ("wstruct2", "P2", "P2 { a: 1, b: 2 }", "(struct %s (%s (int 1)) (%s (int 2)))" % (hx("P2"), hx("a"), hx("b")), "_ { a: 1, b: 2, .. }", "_ { a: 1, b: 3, .. }", "C08-wildcard-struct-multi-eval"),
     ("map", "BTreeMap<String, i32>", "BTreeMap::from([(\"a\".to_string(), 1), (\"b\".to_string(), 2)])",
@@ -92,7 +92,6 @@ CLASS_TEXT = {
     "C08-fail-path-double-eval": "on the failing path of a leaf or of a composite whose own shape fails, the value expression spliced into "
                                  "format!(\"{:?}\", ..) is evaluated a second time, and that second value is what the report shows: "
                                  "`assert_struct!(next(), > 5)` failing calls next() twice",
-    "C08-root-wildcard-zero-eval": "`assert_struct!(expr, _)` never evaluates expr (the wildcard expands to nothing)",
     "C08-wildcard-struct-multi-eval": "a wildcard struct pattern evaluates the asserted expression once per listed field: "
                                       "`assert_struct!(next(), _ { a: 1, b: 2, .. })` calls next() twice on the passing path",
     "C08-map-multi-eval": "a map pattern evaluates the asserted expression once for the length check and once per entry: "
